@@ -53,6 +53,13 @@ prove should move to Properties.v; keep weaker results labelled `_partial`, refu
 Axiom/Parameter/Admitted/admit; stdlib + lia style as in BUILDING.md.  Proof effort should go where the property's statement is
 not yet carried in full.
 
+GOAL 4: source tie.  Read the LAST section of /verif/BUILDING.md ("Source tie with go2coq") and add the tie for {pid}:
+`go2coq/specs/{pid}.json` listing the pure functions and the guard-bearing methods of the anchored code, the generated
+`coq/theories/Generated/{pid}Source.v`, `coq/theories/{pid}/SourceTie.v` proving that the model's arithmetic and guards ARE those
+expressions (atoms pinned), `Theorem {pid}_source_tie` in Properties.v, and the `"go2coq"` entry / `coq_extra_files` / a
+trusted_base line in props/{pid}.json.  `go2coq/main.go` and `Base/GoSem.v` are shared: report what is missing instead of editing them.
+Validate with 2-3 guard mutants (flipped comparison, changed constant, changed operand) and one harmless edit in a scratch worktree.
+
 CONSTRAINTS: the quick check (`./check {pid}`) must stay under about 90 s wall on a warm build and print `OK`; other builders are
 working on other properties at the same time (16 cores shared: do not start more than one heavy job at once; run every
 coqc/make/go under `timeout`).  Do NOT edit /repo, MANIFEST.json, known_findings.json or other properties' files; shared files
